@@ -271,15 +271,23 @@ pub fn run(ctx: &mut Ctx) {
                 if ticks >= (1u64 << 31) {
                     continue;
                 }
-                let variant = (idx % 4) as u8;
+                let variant = (idx % 6) as u8;
                 // variant 0: client SYN then client ACK; 1: server SYN+ACK then server data;
                 // 2: client data then client data; 3: low client port (heuristic says "server")
-                let (cport, sport) = if variant == 3 { (1000u16, 80u16) } else { (40000 + (idx % 20000) as u16, 443) };
+                // 4: server on a high port answering a client on a privileged port (handshake flags must
+                //    win over the port heuristic); 5: the same with non-handshake segments only
+                let (cport, sport) = match variant {
+                    3 => (1000u16, 80u16),
+                    4 | 5 => (600 + (idx % 400) as u16, 8080),
+                    _ => (40000 + (idx % 20000) as u16, 443),
+                };
                 let ep = eps(idx, idx % 5 == 0, cport, sport);
                 let (fc, fl0, fl1) = match variant {
                     0 => (true, flags::SYN, flags::ACK),
                     1 => (false, flags::SYN | flags::ACK, flags::ACK | flags::PSH),
                     2 => (true, flags::ACK, flags::ACK | flags::PSH),
+                    4 => (false, flags::SYN | flags::ACK, flags::ACK),
+                    5 => (false, flags::ACK, flags::ACK | flags::PSH),
                     _ => (true, flags::SYN, flags::ACK),
                 };
                 let segs = vec![
@@ -381,7 +389,8 @@ pub fn run(ctx: &mut Ctx) {
     let n = ctx.scale(300_000, 6_000_000, 20) / ctx.nshards as u64 + 1;
     let mut r: Rng = ctx.rng(19);
     for k in 0..n {
-        let ep = eps(1_000_000 + k + (ctx.shard as u64) * 10_000_000, r.chance(1, 4), 1025 + r.u16() % 60000, *r.pick(&[80u16, 443, 22, 1024, 1025, 8080]));
+        let cport = if r.chance(1, 5) { 1 + r.u16() % 1024 } else { 1025 + r.u16() % 60000 };
+        let ep = eps(1_000_000 + k + (ctx.shard as u64) * 10_000_000, r.chance(1, 4), cport, *r.pick(&[80u16, 443, 22, 1024, 1025, 8080, 50000]));
         let cf = *r.pick(&[1u64, 7, 10, 64, 100, 250, 300, 500, 1000, 1200, 1500, 2000, 5000]);
         let sf = *r.pick(&[1u64, 2, 24, 100, 128, 200, 250, 333, 1000, 1024, 1499, 3000]);
         let c_base = *r.pick(&BASES);
